@@ -53,13 +53,15 @@ def run(rep, tier, seed):
                "SE_2(3) and SGal(3) in the thorough tier only")
     for f, h in (("CeresManifoldFunctor", "manifold.h"), ("CeresLocalParameterizationFunctor", "local_parametrization.h")):
         C.check_anchor(rep, "manif::" + f, "include/manif/ceres/" + h)
+    items = []
     for g in gs:
         if g in errs:
             lines = [l for l in errs[g].output.splitlines() if "error" in l][:6]
             rep.fail("C12/%s/instantiates_over_dual_numbers" % g, "BUILD", "g++", {"compiler_output": "\n".join(lines)},
                      {"failing_input_reproduced": True, "demonstration": "manif::%s<Jet> does not compile" % g})
             continue
-        check(rep, g, seed)
+        items.append(g)
+    rep.parallel(items, lambda r, g: check(r, g, seed))
 
 
 def _eq_or_dag(rep, c, path, L, a, b, what):
